@@ -138,6 +138,10 @@ def run_case(case: dict) -> CaseResult:
             ta = t0 + (off + 2) * (K / 128)
             state["arrivals"].append(ta)
             sess.device_send_at(ta, pb.DeviceInfoResponse(name="dev", has_deep_sleep=True, mac_address="AA:BB:CC:DD:EE:FF"))
+        # the application keeps sending fire-and-forget commands: what the CLIENT writes is no sign of life from the
+        # device -- ticks, pings and the moment of death are those of the arrivals alone
+        for off in case.get("sends", []):
+            env.loop.sim_at(t0 + off * (K / 128), lambda: None if sess.conn.connection_state.name != "CONNECTED" else sess.cli.switch_command(1, True))
         # a graceful disconnect() the caller gives up on (its task is cancelled before the device answered -- it never
         # does): the session is still established and keeps being watched
         if case.get("abandon"):
@@ -252,6 +256,8 @@ def run_case(case: dict) -> CaseResult:
         classes.add("device_says_it_sleeps")
     if case.get("abandon"):
         classes.add("graceful_disconnect_abandoned")
+    if case.get("sends"):
+        classes.add("client_keeps_sending")
     if not exact:
         classes.add("non_dyadic_K")
     res.classes = sorted(classes)
@@ -302,6 +308,10 @@ def _case(draw, tier):
     if not case.get("misalign") and draw(st.integers(0, 3)) == 0:
         case["devinfo"] = 2 * draw(st.integers(0, 10 * 64)) + 1
     if draw(st.integers(0, 3)) == 0:
+        every = draw(st.sampled_from([16, 50, 64, 100, 128]))
+        first = draw(st.integers(0, 2 * 128))
+        case["sends"] = list(range(first, first + 40 * 128, every))
+    if draw(st.integers(0, 3)) == 0:
         case["abandon"] = [2 * draw(st.integers(0, 20 * 64)), 2 * draw(st.one_of(st.integers(1, 64), st.integers(1, 64 * 6)))]
     return case
 
@@ -326,6 +336,10 @@ def enumerated(tier):
     for pat in (0, 5, 37, 301, 682):
         msgs = [[64 * i + 33 if (64 * i + 33) % 2 else 64 * i + 32 + 1, 8] for i in range(nslots) if pat >> i & 1]
         yield {"K": 2.0, "noise": pat % 2 == 1, "msgs": msgs, "login": False}
+    for pat in (0, 5, 37, 301, 682):
+        msgs = [[64 * i + 33 if (64 * i + 33) % 2 else 64 * i + 32 + 1, 8] for i in range(nslots) if pat >> i & 1]
+        for every in (32, 100):
+            yield {"K": 2.0, "noise": pat % 2 == 1, "msgs": msgs, "sends": list(range(10, 30 * 128, every))}
     for pat in (0, 5, 37, 301, 682):
         msgs = [[64 * i + 33 if (64 * i + 33) % 2 else 64 * i + 32 + 1, 8] for i in range(nslots) if pat >> i & 1]
         for K in (2.0, 8.0):
